@@ -258,9 +258,44 @@ pub fn run_c16<K: KeyLike>(t: &C16Case) -> CaseReport {
     if let Some(id) = a.cb {
         let _ = take_cb_log(id);
     }
-    let mut b = match guarded!(rep, a.try_clone()) {
-        Some(b) => b,
-        None => return rep,
+    // the clone is taken either by `clone()` or by `clone_from()` into an existing cache of
+    // the same kind with another configuration and other contents
+    let mut b = if t.diverge.len() % 3 == 1 {
+        let mut other_cfg = case.cfg.clone();
+        other_cfg.a = other_cfg.a % 5 + 1;
+        other_cfg.b = other_cfg.b % 3 + 1;
+        other_cfg.c = other_cfg.c % 3 + 2;
+        other_cfg.samples = other_cfg.samples % 7 + 1;
+        let mut target = match guarded!(rep, Sut::<K>::build(kind, &other_cfg)) {
+            Ok(s) => s,
+            Err(_) => return rep,
+        };
+        for (j, op) in t.lock.iter().take(6).enumerate() {
+            if op.supported(kind) && !matches!(op, Op::CloneSwap | Op::CloneDrop) {
+                let _ = guarded!(rep, target.apply(op, 9000 + j));
+            }
+        }
+        if let Some(id) = target.cb {
+            let _ = take_cb_log(id);
+        }
+        if !guarded!(rep, target.clone_from_other(&a)) {
+            return rep;
+        }
+        if let Some(id) = a.cb {
+            // entries the target held before are released by clone_from; that may or may not
+            // count as "leaving the cache" for the callback: not judged
+            let _ = take_cb_log(id);
+        }
+        if let Some(id) = target.cb {
+            let _ = take_cb_log(id);
+        }
+        rep.stats.hit(Ev::CloneNonEmpty);
+        target
+    } else {
+        match guarded!(rep, a.try_clone()) {
+            Some(b) => b,
+            None => return rep,
+        }
     };
     // (a) identical at that moment
     let vb = guarded!(rep, b.view());
